@@ -17,6 +17,9 @@ relates this to the truncation of the event trace inside its k-th `Call`).  Ever
 Only property theorems and non-vacuity examples live here; lemmas are in `Lemmas/C12*.lean`.
 -/
 import GemseoVerif.Lemmas.C12
+import GemseoVerif.Lemmas.C12Replay
+import GemseoVerif.Lemmas.C12Opt
+import GemseoVerif.Lemmas.C12Trace
 
 namespace GV.C12
 open GV.C11
@@ -107,6 +110,125 @@ theorem calls_unique (sR : St κ) (hcalls : sR.calls = []) (rs : List Req) :
 theorem loaded_entries_kept (sR : St κ) (rs : List Req) :
     DbLe sR.h.db (runSt H cfg val sR rs).h.db := run_dbLe H cfg val sR rs
 
+/-- **crash_state_is_prefix_state.** The crash point defined on the event trace — the trace
+    `Call … | Store x n v | NewIter x | Export` of the run truncated inside its `k`-th `Call`,
+    replayed on the database, pending buffer and file the process started with — is the state
+    reached by the requests completed before that call: nothing of the evaluation in progress is
+    stored, and `completedBefore … k s0 rs` is the `done` of the other theorems. -/
+theorem crash_state_is_prefix_state (s0 : St κ) (rs : List Req) (k : Nat) (hk : 1 ≤ k) :
+    replay H s0.h (truncateAtCall k (traceOf H cfg val s0 rs)) =
+      (runSt H cfg val s0 (completedBefore H cfg val k s0 rs)).h :=
+  replay_truncated H cfg val s0 rs k hk
+
+/-- Hence: whatever `k`, the file left by a death inside the `k`-th discipline execution reads
+    back to the snapshot of the state reached by the completed requests. -/
+theorem backup_at_kth_call (hinj : Function.Injective H) (s0 : St κ) (h0 : Inv H cfg s0)
+    (rs : List Req) (k : Nat) (hk : 1 ≤ k) :
+    ∃ d, readFile (replay H s0.h (truncateAtCall k (traceOf H cfg val s0 rs))).file = some d ∧
+      DbEq d (runSt H cfg val s0 (completedBefore H cfg val k s0 rs)).snap := by
+  rw [crash_state_is_prefix_state H cfg val s0 rs k hk]
+  obtain ⟨d, hd, heq, _⟩ := backup_is_snapshot H cfg val hinj s0 h0 (completedBefore H cfg val k s0 rs)
+  exact ⟨d, hd, heq⟩
+
+/-- **restart_optimum_at_least_as_good.** If the loaded database holds a feasible point with an
+    objective value, the optimum reported on the final database of the restarted run is feasible
+    and its objective is not larger than that of the optimum of the loaded database (C04's
+    `OptimizationHistory.optimum`, Euclidean norm for vector objectives) — whatever the restarted run
+    requests. -/
+theorem restart_optimum_at_least_as_good (hinj : Function.Injective H) (c : C04.Cfg) (sR : St κ)
+    (hR : Inv H cfg sR) (rs : List Req) (sL sF : C04.Solution)
+    (hL : reportedOptimum c sR.h.db = some sL)
+    (hF : reportedOptimum c (runSt H cfg val sR rs).h.db = some sF)
+    (hf : ∃ e ∈ toHist sR.h.db, C04.isFeasible c e = true ∧ (C04.objKey c e).isSome = true) :
+    sL.feasible = true ∧ sF.feasible = true ∧
+    ∃ (i i' : Nat) (e e' : C04.Entry) (k k' : C04.Key), sL.idx = some i ∧ sF.idx = some i' ∧
+      (toHist sR.h.db)[i]? = some e ∧ (toHist (runSt H cfg val sR rs).h.db)[i']? = some e' ∧
+      C04.objKey c e = some k ∧ C04.objKey c e' = some k' ∧ k'.toReal ≤ k.toReal :=
+  optimum_of_extension c _ _ hR.base.c11.wf (inv_run H cfg val hinj sR hR rs).base.c11.wf
+    (run_dbLe H cfg val sR rs) sL sF hL hF hf
+
+/-- **The snapshot is the database of an earlier step of the algorithm** (each-iteration mode: the
+    last notified iteration; function-call mode: the current step). -/
+theorem snapshot_is_database_of_earlier_step (strat : Strategy) (sU : St κ) (hsnap : sU.snap = sU.h.db)
+    (j : Nat) :
+    ∃ m, m ≤ j ∧ (stratRun H cfg val strat j ⟨sU, [], true⟩).s.snap
+      = (stratRun H cfg val strat m ⟨sU, [], true⟩).s.h.db :=
+  snapshot_is_earlier_database H cfg val strat ⟨sU, [], true⟩ hsnap j
+
+/-- **deterministic_replay.** Let the algorithm be any function of what it has observed (its
+    requests and their answers), on a problem whose stored values are replayed exactly (no
+    normalisation layer between the database and the algorithm). Start it in a state `sU` that
+    satisfies the invariant, whose file holds its database and whose counter is its number of
+    entries (a fresh problem, or one that has just loaded a backup). Kill the process after any
+    number `j` of steps (inside the evaluation of its next request), load the file in a new process,
+    keep the counter, install the same budget and run the same algorithm: after any number `n ≥ j` of
+    steps the restarted run holds the same database as the uninterrupted run after `n` steps
+    (same points in the same order, same outputs, same values), has observed the same answers, has
+    the same counter and has stopped iff the uninterrupted run has — in particular both end with
+    the same history. -/
+theorem deterministic_replay (hinj : Function.Injective H) (strat : Strategy) (sU : St κ)
+    (hinv : Inv H cfg sU) (hsnap : sU.snap = sU.h.db) (hcount : CountOK sU) (j : Nat) :
+    ∃ sR, restart H (stratRun H cfg val strat j ⟨sU, [], true⟩).s.h = some sR ∧
+      ∀ n, j ≤ n →
+        DbEq (stratRun H cfg val strat n ⟨start sR sU.maximum false, [], true⟩).s.h.db
+             (stratRun H cfg val strat n ⟨sU, [], true⟩).s.h.db ∧
+        (stratRun H cfg val strat n ⟨start sR sU.maximum false, [], true⟩).hist
+          = (stratRun H cfg val strat n ⟨sU, [], true⟩).hist ∧
+        (stratRun H cfg val strat n ⟨start sR sU.maximum false, [], true⟩).live
+          = (stratRun H cfg val strat n ⟨sU, [], true⟩).live ∧
+        (stratRun H cfg val strat n ⟨start sR sU.maximum false, [], true⟩).s.counter
+          = (stratRun H cfg val strat n ⟨sU, [], true⟩).s.counter := by
+  have hj := (inv_stratRun H cfg val strat hinj ⟨sU, [], true⟩ hinv j).base
+  obtain ⟨sR, hre, _, _, heq, hcnt, _, _⟩ := restart_spec H _ hj
+  obtain ⟨m, hmj, hm⟩ := snapshot_is_earlier_database H cfg val strat ⟨sU, [], true⟩ hsnap j
+  refine ⟨sR, hre, ?_⟩
+  intro n hn
+  have hload : DbEq (start sR sU.maximum false).h.db (stratRun H cfg val strat m ⟨sU, [], true⟩).s.h.db := by
+    show DbEq sR.h.db _
+    rw [← hm]; exact heq
+  have hc : (start sR sU.maximum false).counter = (start sR sU.maximum false).h.db.length := by
+    show (if false = true then 0 else sR.counter) = sR.h.db.length
+    simp only [Bool.false_eq_true, if_false]
+    rw [hcnt]; exact (dbEq_length heq).symm
+  have := replay_all H cfg val strat ⟨sU, [], true⟩ ⟨start sR sU.maximum false, [], true⟩ m hcount hc rfl
+    hload rfl rfl n (by omega)
+  exact ⟨this.1.1, this.2.1, this.2.2, this.1.2.1⟩
+
+/-- The fresh problem satisfies the three start hypotheses of `deterministic_replay`, with any
+    budget. -/
+theorem fresh_start_ok (maximum : Nat) :
+    Inv H cfg (start (St.init : St κ) maximum true) ∧
+    (start (St.init : St κ) maximum true).snap = (start (St.init : St κ) maximum true).h.db ∧
+    CountOK (start (St.init : St κ) maximum true) := by
+  refine ⟨⟨?_, fun _ => rfl⟩, rfl, ⟨rfl, by simp [start, St.init, State.init]⟩⟩
+  have := inv0_init (κ := κ) H
+  exact ⟨this.c11, this.ok, this.snapWF, this.fileSnap, this.fileComplete, this.snapLe⟩
+
+/-- **The configuration outside the property** (`preexisting_file_modes`): a file left by another
+    run that is neither erased nor loaded. The first export of the new run appends to the entries
+    of unrelated points: the file then reads back to a point of the *old* run carrying an output
+    of the *new* one — not a prefix of the new run's history. (Absent, erased and loaded files
+    are the states covered by the invariant.) -/
+theorem unloaded_existing_file_not_prefix :
+    ∃ (F : File) (rs : List Req) (d : Db),
+      let s0 : St Pt := { (St.init : St Pt) with h := { db := [], pend := [], file := F } }
+      let sf := runSt (fun p => p) ⟨true, false⟩ (fun _ _ => .scalar 7) s0 rs
+      sf.ok = true ∧ readFile sf.h.file = some d ∧ ¬ DbLe d sf.h.db := by
+  refine ⟨[(0, ⟨⟨false, [5]⟩, ["f"], [1], []⟩)], [⟨"g", ⟨false, [9]⟩, 1⟩],
+    [(⟨false, [5]⟩, [("f", .scalar 1), ("g", .scalar 7)])], by decide, by decide, ?_⟩
+  intro h
+  have := h.2 ⟨false, [5]⟩ "f" (.scalar 1) (by decide)
+  revert this
+  decide
+
+/-- In the same configuration with array-valued outputs the export raises (`ValueError`: the
+    dataset already exists in the sub-group of the unrelated entry). -/
+theorem unloaded_existing_file_export_raises :
+    ∃ (F : File) (rs : List Req),
+      let s0 : St Pt := { (St.init : St Pt) with h := { db := [], pend := [], file := F } }
+      (runSt (fun p => p) ⟨true, false⟩ (fun _ _ => .arr ⟨[1], [7]⟩) s0 rs).ok = false :=
+  ⟨[(0, ⟨⟨false, [5]⟩, ["f"], [], [(0, ⟨[1], [1]⟩)]⟩)], [⟨"g", ⟨false, [9]⟩, 1⟩], by decide⟩
+
 /-! ### Non-vacuity: a concrete run in each mode, killed after its fourth request -/
 
 section demo
@@ -150,6 +272,46 @@ example :
     demoRestarted.map (·.h.db) = some demoFinal.h.db ∧
     demoRestarted.map (·.counter) = some demoFinal.counter := by
   decide
+
+/-- An algorithm that really depends on what it observes: after `f` it asks for `g` at the same
+    point, after `g` it chooses its next point from the value it was given. -/
+def demoStrat : Strategy := fun hist =>
+  match hist.getLast? with
+  | none => some ⟨"f", ⟨false, [0, 1]⟩, 2⟩
+  | some (r, v) =>
+    if r.name = "f" then some ⟨"g", r.p, 0⟩
+    else match v with
+      | .arr ⟨_, [b]⟩ =>
+        if b = 1 then some ⟨"f", ⟨false, [2, 3]⟩, 2⟩
+        else if b = 3 then some ⟨"f", ⟨false, [4, 5]⟩, 2⟩
+        else some ⟨"f", ⟨false, [6, 7]⟩, 2⟩
+      | _ => none
+
+def demoU (n : Nat) : RunCfg Pt :=
+  stratRun (fun p => p) ⟨false, true⟩ demoVal demoStrat n ⟨start St.init 2 true, [], true⟩
+
+def demoR (j n : Nat) : Option (RunCfg Pt) :=
+  (restart (fun p => p) (demoU j).s.h).map (fun sR =>
+    stratRun (fun p => p) ⟨false, true⟩ demoVal demoStrat n ⟨start sR 2 false, [], true⟩)
+
+/-- `deterministic_replay` on a concrete case: budget 2, each-iteration backup, the process dies
+    after 3 steps (the file holds the second point with `f` only); the restart recomputes `g` there
+    only, is stopped by the budget at the same request as the uninterrupted run and ends with the
+    same database and counter. -/
+example :
+    (demoU 8).live = false ∧ (demoU 8).s.h.db.length = 2 ∧ (demoU 8).s.counter = 2 ∧
+    (demoR 3 8).map (·.s.h.db) = some (demoU 8).s.h.db ∧
+    (demoR 3 8).map (·.live) = some false ∧
+    (demoR 3 8).map (·.s.counter) = some 2 ∧
+    (demoR 3 8).map (·.s.calls) = some [("g", ⟨false, [2, 3]⟩)] := by decide
+
+/-- `restart_optimum_at_least_as_good`: its feasibility hypothesis is satisfiable by a loaded
+    database (objective `f`, constraint `g ≤ 1`), and the reported optimum is the loaded point. -/
+example :
+    (∃ e ∈ toHist demoCrash.snap,
+      C04.isFeasible ⟨"f", [⟨"g", .ineq⟩], 0, 1⟩ e = true ∧ (C04.objKey ⟨"f", [⟨"g", .ineq⟩], 0, 1⟩ e).isSome = true) ∧
+    reportedOptimum ⟨"f", [⟨"g", .ineq⟩], 0, 1⟩ demoFinal.h.db = some ⟨some 0, true⟩ := by
+  refine ⟨⟨_, List.mem_cons_self, by decide, by decide⟩, by decide⟩
 
 /-- The hypotheses of the theorems are satisfiable: the fresh state satisfies the invariant. -/
 example : Inv (fun p : Pt => p) ⟨false, true⟩ (St.init : St Pt) := inv_fresh _ _
